@@ -394,7 +394,10 @@ fn headers_family(start: Start, b: &[u8], r: &RefOut, ctx: &mut Ctx) -> Result<(
                 c.eq("payload", "kind", kind, exp_kind);
                 if kind == exp_kind {
                     c.range("payload", "slice", p.payload.slice(), fp.off, fp.len);
-                    c.eq("payload", "incomplete", inc, fp.incomplete);
+                    // the flag of a UDP *transport* payload may also reflect the UDP length field
+                    if !(kind == "udp" && inc == (fp.incomplete || fp.udp_promises_more)) {
+                        c.eq("payload", "incomplete", inc, fp.incomplete);
+                    }
                 }
                 c.eq("net", "presence", p.net.is_some(), r.layers.iter().any(|l| matches!(l.kind, refdec::LK::Ipv4 | refdec::LK::Ipv6 | refdec::LK::Arp)));
                 c.eq("transport", "presence", p.transport.is_some(), r.layers.iter().any(|l| l.kind.is_transport()));
